@@ -101,12 +101,15 @@ CAPTURABLE = [
     "ValueError", "KeyError", "OSError", "AssertionError", "ZeroDivisionError", "IndexError",
     "UnicodeError", "StopIteration", "CustomParseError", "InterruptedError", "TimeoutError", "PermissionError", "EOFError", "MemoryError",
     "FrozenError", "FrozenDataError", "SignatureError", "FalsyError", "NoFindings",
+    # the payload's own failure (input nested too deeply for the function), which taskproc names in its capture clause -
+    # a RuntimeError only by inheritance
+    "RecursionError",
 ]
 SUPER = {
     "KeyError": "LookupError", "IndexError": "LookupError", "ZeroDivisionError": "ArithmeticError",
     "UnicodeError": "ValueError", "InterruptedError": "OSError", "TimeoutError": "OSError", "PermissionError": "OSError",
 }
-RUNTIME_FAMILY = ["RuntimeError", "NotImplementedError", "RecursionError"]
+RUNTIME_FAMILY = ["RuntimeError", "NotImplementedError"]
 
 
 @dataclass
@@ -423,7 +426,7 @@ def is_captured(spec: dict, p: dict) -> bool:
     if spec["reraise"]:
         return False
     ecls = EXC[p["exc"]]
-    if issubclass(ecls, RuntimeError):
+    if issubclass(ecls, RuntimeError) and not issubclass(ecls, RecursionError):
         return False
     names = p["raises"] if p.get("raises_late") is None else p["raises_late"]  # what raises() says when the exception occurs
     rs = [EXC[n] for n in names]
